@@ -52,6 +52,26 @@ class Tracker:
             self.names.append(n)
             self.place[n] = ("phi", L)
             self.kind[n] = "bool"
+        # a local working copy of a tracked enum place (`let mut state = *this.state; .. *this.state = state;`)
+        self.copy_locals = {}
+        base = [n for n in self.names if not n.startswith("_") and self.kind[n] == "enum"]
+        for b in sorted(self.body.reachable):
+            if self.body.is_cleanup(b):
+                continue
+            for st in self.body.stmts(b):
+                if st["k"] == "assign" and not st["lhs"]["p"] and st["rv"]["k"] == "use":
+                    op = st["rv"]["op"]
+                    pl = op.get("cp") or op.get("mv")
+                    if pl is not None and pl["p"]:
+                        pt = bi.T.of_place(pl)
+                        for n in base:
+                            if pt == self.place[n]:
+                                self.copy_locals[st["lhs"]["l"]] = n
+        for L, n0 in sorted(self.copy_locals.items()):
+            n = "_copy_%d" % L
+            self.names.append(n)
+            self.place[n] = ("phi", L)
+            self.kind[n] = "enum"
 
     def value_of_rv(self, name, rv):
         """Abstract value written by rvalue `rv` to tracked place `name` (TOP if unknown)."""
@@ -97,11 +117,17 @@ class Tracker:
                         vals[i] = bool(int(rv["op"]["c"]["v"]))
                     else:
                         vals[i] = TOP
+                elif st["k"] == "assign" and not st["lhs"]["p"] and st["lhs"]["l"] in self.copy_locals:
+                    L = st["lhs"]["l"]
+                    i = self.names.index("_copy_%d" % L)
+                    vals[i] = self._copy_value(vals, st["rv"], "_copy_%d" % L)
                 elif st["k"] == "assign" and st["lhs"]["p"]:
                     pt = bi.T.of_place(st["lhs"])
                     for i, n in enumerate(self.names):
                         if pt == self.place[n]:
                             new = self.value_of_rv(n, st["rv"])
+                            if new == TOP and self.copy_locals and self.kind[n] == "enum":
+                                new = self._copy_value(vals, st["rv"], n)
                             res.writes.append((b, n, vals[i], new, flags, st.get("sp", "")))
                             vals[i] = new
                 elif st["k"] == "setdiscr":
@@ -207,6 +233,14 @@ class Tracker:
                     seen.add(s2)
                     dq.append(s2)
         return res
+
+    def _copy_value(self, vals, rv, name):
+        """value of an rvalue that may read a tracked enum place or one of its local working copies"""
+        t = self.bi.T.of_rvalue(rv, 0)
+        for j, n in enumerate(self.names):
+            if self.kind[n] == "enum" and not n.startswith("_old_") and t == self.place[n]:
+                return vals[j]
+        return self.value_of_term(name, t)
 
     def _is_mut_ref_arg(self, t, term):
         return True
